@@ -170,7 +170,11 @@ def build(repo, workdir, tus=TUS, jobs=14):
             txt = '#ifndef WV_NO_CLI\n' + txt + '\n#endif'
         out.append(txt)
         meta['funcs'][name] = {'file': f['file'], 'line': f['line'], 'sha256': f['sha256'], 'generated': bool(f.get('generated')), 'sig': f['sig'],
-                               'in_place_contract': bool(f['contract'])}
+                               'in_place_contract': bool(f['contract']),
+                               'gen_sha': hashlib.sha256((f['sig'] + '\n' + f['contract'] + '\n' + f['body']).encode()).hexdigest()}
+    # everything that is not the body of a repository function: types, globals, prototypes, generated helpers and dispatchers
+    decl = [x for x in out if not re.match(r'(#ifndef WV_NO_CLI\n)?/\* [\w/.]+:\d+ [0-9a-f]+ \*/\n', x)]
+    meta['decl_sha256'] = hashlib.sha256('\n\n'.join(decl).encode()).hexdigest()
     text = '\n\n'.join(out) + '\n'
     # linemarkers the preprocessor leaves after a multi-line macro invocation would re-map every later source location
     text = re.sub(r'(?m)^# \d+ "[^"\n]*"[ \d]*\n', '', text)
